@@ -24,13 +24,16 @@ type respRow struct {
 	ReplySent   int64  `json:"reply_sent_unix_ns"`
 	ReplyMAC    string `json:"reply_mac"`
 	RequestSeen int64  `json:"request_seen_unix_ns"`
+	RepliedIP   string `json:"replied_ip,omitempty"`
 }
 
-func respond(out, iface, ipStr string, after, total time.Duration) {
-	ip := net.ParseIP(ipStr).To4()
-	if ip == nil {
-		fmt.Fprintln(os.Stderr, "respond: bad ip")
-		os.Exit(2)
+func respond(out, iface, ipStr string, after, total time.Duration, skip int) {
+	var ip net.IP // nil: answer the skip-th request seen, whatever address it asks for
+	if ipStr != "any" {
+		if ip = net.ParseIP(ipStr).To4(); ip == nil {
+			fmt.Fprintln(os.Stderr, "respond: bad ip")
+			os.Exit(2)
+		}
 	}
 	h, err := afp.NewTPacket(afp.SocketRaw, afp.OptInterface(iface), afp.OptPollTimeout(20*time.Millisecond))
 	if err != nil {
@@ -63,8 +66,12 @@ func respond(out, iface, ipStr string, after, total time.Duration) {
 		row.Probes++
 		row.LastProbe = ci.Timestamp.UnixNano()
 		mu.Unlock()
-		if !scheduled && net.IP(data[38:42]).Equal(ip) {
+		if !scheduled && ((ip == nil && row.Probes > skip) || (ip != nil && net.IP(data[38:42]).Equal(ip))) {
 			scheduled = true
+			if ip == nil {
+				ip = append(net.IP(nil), data[38:42]...)
+				row.RepliedIP = ip.String()
+			}
 			row.RequestSeen = ci.Timestamp.UnixNano()
 			sha := append([]byte(nil), data[22:28]...)
 			spa := append([]byte(nil), data[28:32]...)
